@@ -1951,8 +1951,17 @@ impl PhysicalPlanner {
                             ));
                         }
                         let v = crate::physical::operators::evaluate_expr(&unit, expr)?;
+                        // A cell the column type cannot represent is an
+                        // error, not a silent NULL.
                         let v = if v.data_type() != field.data_type() {
-                            arrow::compute::cast(&v, field.data_type())?
+                            arrow::compute::cast_with_options(
+                                &v,
+                                field.data_type(),
+                                &arrow::compute::CastOptions {
+                                    safe: false,
+                                    ..Default::default()
+                                },
+                            )?
                         } else {
                             v
                         };
